@@ -225,7 +225,7 @@ pub fn run(ctx: &Ctx) -> i32 {
     let mut reports = vec![super::regression_suite(ctx)];
     reports.push(cbp_suite());
     reports.push(exhaustive_suite(ctx, "zigzag_index_sweep", 63 * 3 * 3, &systematic_item));
-    let cases = ctx.tier.pick(120_000u64, 1_000_000u64);
+    let cases = ctx.tier.pick(120_000u64, 2_500_000u64);
     reports.push(tape_suite(ctx, "random_intra_pictures", cases, 4096, &move |g| intra_case(g, &cfg)));
     if ctx.tier == Tier::Thorough {
         // the large fixed formats, few cases each
